@@ -247,7 +247,14 @@ def _get_unused_imports(ast_tree: ast.Module) -> Collection[str]:
             full_name = re.sub(r"\.[^\.]*$", "", full_name)
             names.add(full_name)
 
-    return imports - names
+    unused_imports = imports - names
+    # import a.b is what binds a, if nothing else does
+    for name in imports - names:
+        package = name.split(".")[0]
+        if package != name and package in names and package not in imports:
+            unused_imports.discard(name)
+
+    return unused_imports
 
 
 def _get_unused_imports_split(
